@@ -420,35 +420,40 @@ def j_text(case, out):
     kind, t = case["kind"], case["text"]
     if not re.fullmatch(G[kind], t):
         raise ValueError("malformed case: text not in the grammar")
+    # ABNF literals are case-insensitive (RFC 5234 2.3): the text is handed over in the spelling of the case - some of the letters
+    # T Z P W D H M S in lower case - and denotes what the canonical spelling denotes
+    sp = case.get("spelling", t)
+    if sp.upper() != t:
+        raise ValueError("malformed case: spelling")
     if kind == "duration":
         want = ref_duration(t)
-        got = vDuration.from_ical(t)
+        got = vDuration.from_ical(sp)
         ok = got == want
-        c = vDDDTypes.from_ical(t)
+        c = vDDDTypes.from_ical(sp)
         cok = type(c) is timedelta and c == want
     elif kind == "offset":
         sign = -1 if t[0] == "-" else 1
         want = sign * timedelta(hours=int(t[1:3]), minutes=int(t[3:5]), seconds=int(t[5:7] or 0))
-        got = vUTCOffset.from_ical(t)
+        got = vUTCOffset.from_ical(sp)
         ok = got == want
         cok = True
     elif kind == "datetime":
         want = datetime(int(t[0:4]), int(t[4:6]), int(t[6:8]), int(t[9:11]), int(t[11:13]), int(t[13:15]), tzinfo=UTC if t.endswith("Z") else None)
-        got = vDatetime.from_ical(t)
+        got = vDatetime.from_ical(sp)
         ok = same_dt(got, want)
-        c = vDDDTypes.from_ical(t)
+        c = vDDDTypes.from_ical(sp)
         cok = same_dt(c, want)
     elif kind == "date":
         want = date(int(t[0:4]), int(t[4:6]), int(t[6:8]))
-        got = vDate.from_ical(t)
+        got = vDate.from_ical(sp)
         ok = type(got) is date and got == want
-        c = vDDDTypes.from_ical(t)
+        c = vDDDTypes.from_ical(sp)
         cok = type(c) is date and c == want
     elif kind == "time":
         want = time(int(t[0:2]), int(t[2:4]), int(t[4:6]), tzinfo=UTC if t.endswith("Z") else None)
-        got = vTime.from_ical(t)
+        got = vTime.from_ical(sp)
         ok = type(got) is time and got.replace(tzinfo=None) == want.replace(tzinfo=None) and (got.tzinfo is None) == (want.tzinfo is None)
-        c = vDDDTypes.from_ical(t)
+        c = vDDDTypes.from_ical(sp)
         cok = type(c) is time and c.replace(tzinfo=None) == want.replace(tzinfo=None) and (c.tzinfo is None) == (want.tzinfo is None)
     elif kind == "int":
         want = int(t)
@@ -473,16 +478,16 @@ def j_text(case, out):
         else:
             e = datetime(int(b[0:4]), int(b[4:6]), int(b[6:8]), int(b[9:11]), int(b[11:13]), int(b[13:15]), tzinfo=UTC if b.endswith("Z") else None)
         want = (s, e)
-        got = vPeriod.from_ical(t)
+        got = vPeriod.from_ical(sp)
         ok = isinstance(got, tuple) and same_dt(got[0], s) and (got[1] == e if isinstance(e, timedelta) else same_dt(got[1], e))
-        c = vDDDTypes.from_ical(t)
+        c = vDDDTypes.from_ical(sp)
         cok = isinstance(c, tuple) and len(c) == 2 and same_dt(c[0], s)
     else:
         raise ValueError(kind)
     if not ok:
-        out.append(Failure("C03.decode", f"decode/{kind}", f"{t!r} -> {got!r}, RFC value {want!r}"))
+        out.append(Failure("C03.decode", f"decode/{kind}", f"{sp!r} -> {got!r}, RFC value {want!r}"))
     if not cok:
-        out.append(Failure("C03.classify", f"classify/{kind}", f"{t!r} -> {c!r}, RFC value {want!r}"))
+        out.append(Failure("C03.classify", f"classify/{kind}", f"{sp!r} -> {c!r}, RFC value {want!r}"))
 
 
 def info(case):
@@ -508,7 +513,7 @@ def info(case):
         w = case["n"]
         classes = ["t:duration", "duration-multi-unit-or-negative"]
     elif k == "text":
-        classes = ["t:text-" + case["kind"]]
+        classes = ["t:text-" + case["kind"]] + (["lower-case-literal"] if case.get("spelling", case["text"]) != case["text"] else [])
     elif k == "twins":
         classes = ["twins:" + "+".join(sorted({i["t"] for i in case["items"]}))]
         w = len(case["items"])
@@ -692,7 +697,13 @@ def grammar_texts(draw):
             y = int(a[0:4])
             b = f"{min(y + draw(st.integers(0, 3)), 9999):04}" + "1231T235959" + ("Z" if z else "")
         t = a + "/" + b
-    return {"t": "text", "kind": kind, "text": t}
+    case = {"t": "text", "kind": kind, "text": t}
+    if kind in ("duration", "datetime", "time", "period") and draw(st.integers(0, 3)) == 0:
+        letters = [i_ for i_, ch in enumerate(t) if ch.isalpha()]
+        if letters:
+            low = set(draw(st.lists(st.sampled_from(letters), min_size=1, max_size=len(letters), unique=True)))
+            case["spelling"] = "".join(ch.lower() if i_ in low else ch for i_, ch in enumerate(t))
+    return case
 
 
 @st.composite
